@@ -17,6 +17,8 @@ DOC_PATTERNS = [
     "vMAJOR[.MINOR[.PATCH[-TAG[NUM]]]]", "vMAJOR.MINOR.PATCH[-TAG]", "MAJOR.MINOR.PATCH-TAG", "vMAJOR.MINOR.PATCH-TAGNUM",
     "vYYYYw0W.BUILD[-TAG]", "vYYYYwWW.BLD[-TAG]", "vYYYYd00J.BUILD[-TAG]", "vYYYYdJJJ.BUILD[-TAG]", "vGGGGwVV.BLD[PYTAGNUM]",
     "vGGGGw0V.BUILD[-TAG]", "vMAJOR[.MINOR[.PATCH]]", "BUILD", "release-MAJOR.MINOR\\[x\\]",
+    # INC1 alone in an optional group (a group is omitted exactly when all its parts are zero: INC1 never is)
+    "YYYY.MM[.INC1]", "vMAJOR.MINOR[.INC1]",
 ]
 
 YEARS_Y = ["YYYY", "YY", "0Y"]
